@@ -194,7 +194,7 @@ def run_property(prop, tier, seed, only=None, jobs=None, verbose=False):
     assert len(ids) == len(set(ids)), f"duplicate case ids: {[i for i in ids if ids.count(i) > 1][:5]}"
     if only:
         cases = [c for c in cases if any(fnmatch.fnmatch(c["id"], o) for o in only)]
-    default_budget = float(os.environ.get("VERIF_BUDGET", 45 if tier == "quick" else 240))
+    default_budget = float(os.environ.get("VERIF_BUDGET", 60 if tier == "quick" else 240))
     for c in cases:
         if not c.get("budget"):
             c["budget"] = default_budget
